@@ -65,6 +65,13 @@ class C02(core.Prop):
             # shorter branch evaluated first (known finding: pop before push)
             {'nodes': [src, f(1, [[0, 0]]), f(2, [[1, 0]]), f(3, [[1, 0]]), f(4, [[3, 0]]), {**f(5, [[2, 0], [4, 0]]), 'name': 'sink'}], 'tail': 5,
              'persistent': None, 'previous': {}},
+            # a shared result used at unequal depths: its consumer is first met by the ordering walk as a direct argument of
+            # the tail and later again, deeper, through another path - T(A(c1(F)), X(c2(F)), c2) and the getter variant
+            # T(L(F[0]), R(F[1]), F[1])
+            {'nodes': [src, f(1, [[0, 0]]), f(2, [[1, 0]]), f(3, [[1, 0]]), f(4, [[2, 0]]), f(5, [[3, 0]]),
+                       {**f(6, [[4, 0], [5, 0], [3, 0]]), 'name': 'sink'}], 'tail': 6, 'persistent': None, 'previous': {}},
+            {'nodes': [src, f(1, [[0, 0]], 2), f(2, [[1, 0]]), f(3, [[1, 1]]), {**f(4, [[2, 0], [3, 0], [1, 1]]), 'name': 'sink'}], 'tail': 4,
+             'persistent': None, 'previous': {}},
             # longer branch first: fine
             {'nodes': [src, f(1, [[0, 0]]), f(2, [[1, 0]]), f(3, [[1, 0]]), f(4, [[3, 0]]), {**f(5, [[4, 0], [2, 0]]), 'name': 'sink'}], 'tail': 5,
              'persistent': None, 'previous': {}},
